@@ -169,6 +169,7 @@ class ArffLineReader(Filter[str, Sequence[str]]):
         self._dialect        = dict(skipinitialspace=True,escapechar="\\",doublequote=False)
         self._quotechar      = None
         self._r_escape       = re.compile(r"\\(.)")
+        self._r_sparse       = re.compile(r"""\s*(-?\d+)\s+('(?:[^'\\]|\\.)*'|"(?:[^"\\]|\\.)*"|[^\s,]+)\s*(?:,|$)""")
 
         if self._is_dense:
             self._set_filter(self._dense)
@@ -210,16 +211,18 @@ class ArffLineReader(Filter[str, Sequence[str]]):
         return self.filter(line)
 
     def _sparse(self, line:str) -> Mapping[int,str]:
-        keys_and_vals = re.split('\s*,\s*|\s+', line.strip("} {"))
+        #each item is an index followed by a value which is either bare or quoted with back-slash escapes
+        text   = line.strip("} {")
+        parsed = {}
+        start  = 0
 
-        if keys_and_vals != ['']:
-            keys = list(map(int,keys_and_vals[0::2]))
-            vals = keys_and_vals[1::2]
-        else:
-            keys = []
-            vals = []
+        while start < len(text):
+            item = self._r_sparse.match(text,start)
+            if not item:
+                raise CobaException(f"We were unable to parse a line in a way that matched the expected attributes.")
+            key,val,start = int(item.group(1)), item.group(2), item.end()
+            parsed[key] = self._r_escape.sub(r"\1",val[1:-1]) if val[0] in self._quotes else val
 
-        parsed = dict(zip(keys,vals))
         if parsed and (min(parsed.keys()) < 0 or self._n_columns <= max(parsed.keys())):
                 raise CobaException(f"We were unable to parse a line in a way that matched the expected attributes.")
         return parsed
